@@ -27,8 +27,8 @@ def primsFor (salt secret : Bytes) (n : Nat) : Prims :=
   let arr : Array Nat := if n = 0 then #[] else (Enc.aesCtrStream kc ivc n).toArray
   { md5 := MD5.md5, C := aesCipher, A := aesGCM,
     KS := fun key iv p => if p < arr.size ∧ key = kc ∧ iv = ivc then arr.getD p 0 else slowKS key iv p,
-    b64enc := Enc.b64Encode, b64dec := Enc.b64Decode,
-    hexenc := Enc.hexEncode, hexdec := Enc.hexDecode }
+    b64enc := Enc.b64Encode, b64raw := Enc.b64DecodeRaw,
+    hexenc := Enc.hexEncode }
 
 /-- instance for the calls that use no keystream -/
 def prims (_ : Nat) : Prims := primsFor [] [] 0
